@@ -108,7 +108,7 @@ Apply(S, a) ==
       [] a.kind = "StartFeed" ->
            IF hd.st # "open" THEN S
            ELSE [S EXCEPT !.fd[a.f] =
-                    IF a.fk = "dump" THEN [st |-> "ended", n |-> hd.n, u |-> hd.u, colls |-> {a.c}, kind |-> "dump", done |-> TRUE]
+                    IF a.fk \in {"dump", "dumpnb"} THEN [st |-> "ended", n |-> hd.n, u |-> hd.u, colls |-> {a.c}, kind |-> a.fk, done |-> TRUE]
                     ELSE [st |-> "running", n |-> hd.n, u |-> hd.u,
                           colls |-> IF a.fk = "multi" THEN Colls ELSE IF a.fk = "bucket" THEN {"c0"} ELSE {a.c},
                           kind |-> a.fk, done |-> FALSE]]
@@ -127,7 +127,7 @@ Enabled(S) ==
     \cup {Act("Drop", h, "-", "-", "-", "c1", "-", "-") : h \in {x \in Handles : S.hs[x].st = "open"}}
     \cup {Act("PutDDoc", h, "-", "-", "-", "c1", "-", "-") : h \in {x \in Handles : S.hs[x].st = "open"}}
     \cup {Act("StartFeed", h, "-", "-", "-", c, f, fk) : h \in {x \in Handles : S.hs[x].st \in {"open", "closed"}},
-              c \in Colls, f \in {x \in FeedIds : S.fd[x].st = "none"}, fk \in {"live", "dump", "multi", "bucket"}}
+              c \in Colls, f \in {x \in FeedIds : S.fd[x].st = "none"}, fk \in {"live", "dump", "dumpnb", "multi", "bucket"}}
     \cup {Act("StopFeed", "h1", "-", "-", "-", "-", f, "-") : f \in {x \in FeedIds : S.fd[x].st = "running"}}
 
 =============================================================================
